@@ -2,7 +2,7 @@
    Statements + `exact` + Print Assumptions only.  Paths are lists of segments, innermost first. *)
 From Spok Require Import Base Find FindProofs.
 
-(* `find` is a total function defined by structural recursion on the start path (each iteration replaces the
+(* `find_spokfile` is a total function defined by structural recursion on the start path (each iteration replaces the
    directory by its parent and the climb ends at the root): termination for every file system, start and stop -
    including a start that is not below stop and empty directories - is part of its definition.
    What it returns, for every file system, start and stop:
@@ -12,7 +12,7 @@ From Spok Require Import Base Find FindProofs.
                   in whatever order);
    - ReadError d: only for a directory that cannot be listed. *)
 Theorem C17_nearest : forall fs stop start,
-  match find fs stop start with
+  match find_spokfile fs stop start with
   | Found d => In d (ups start) /\ has fs d /\ eligible stop d /\ (forall d', nearer start d' d -> ~ has fs d')
   | NotFound => forall d, In d (ups start) -> eligible stop d -> ~ has fs d
   | ReadError d => In d (ups start) /\ eligible stop d /\ fs d = None
@@ -21,7 +21,7 @@ Proof. exact find_spec. Qed.
 Print Assumptions C17_nearest.
 
 Theorem C17_no_error : forall fs stop start, (forall d, In d (ups start) -> eligible stop d -> fs d <> None) ->
-  forall d, find fs stop start <> ReadError d.
+  forall d, find_spokfile fs stop start <> ReadError d.
 Proof. exact find_no_error. Qed.
 Print Assumptions C17_no_error.
 
@@ -37,7 +37,7 @@ Definition ex_fs : fsys := fun p =>
   | _ => None
   end.
 Example C17_nonvacuous :
-  find ex_fs [11] [13; 12; 11] = Found [11] /\ find ex_fs [20] [13; 12; 11] = Found [11] /\
-  find ex_fs [12; 11] [11] = NotFound /\ find ex_fs [12; 11] [13; 12; 11] = NotFound.
+  find_spokfile ex_fs [11] [13; 12; 11] = Found [11] /\ find_spokfile ex_fs [20] [13; 12; 11] = Found [11] /\
+  find_spokfile ex_fs [12; 11] [11] = NotFound /\ find_spokfile ex_fs [12; 11] [13; 12; 11] = NotFound.
 Proof. repeat split; vm_compute; reflexivity. Qed.
 Print Assumptions C17_nonvacuous.
